@@ -16,6 +16,8 @@ let eval ?(kill_timeout = false) (prev : state) (op : op) (r : result) (next : s
     ("unsub", BackendSpec.unsub_ok prev op r next);
     ("retained", BackendSpec.retained_ok prev op r next && BackendSpec.retained_wf next);
     ("replay", BackendSpec.replay_ok prev op r next);
+    (* delivery log, judged on this step alone: queued messages stay until dequeued, whatever Subscribe/Unsubscribe do *)
+    ("delivery", BackendLog.delivery_ok prev op r next);
     ("handover", BackendC13.handover_ok prev op r next);
     (* backend side of C08 *)
     ("offline_queue", BackendC08.offline_queue_ok prev op r next);
